@@ -1,6 +1,7 @@
 """C05 — RandomGen samples uniformly: one candidate per valid sequence (sampling_strategy/random.py)."""
 import itertools
 from collections import Counter
+from fractions import Fraction
 
 from pyvc.report import Check, run_check, seed
 from pyvc.smt import budget_ms
@@ -40,6 +41,10 @@ def _eval(arg):
     rounds, leftover = (T - pre) // cs, (T - pre) % cs
     n_inst = len(en._crossing_instances)
 
+    # probability with which random_components draws a component tuple: one uniform draw per index, the ranges of the source-combination draws depend on
+    # the permutation drawn first (so tuples under different permutations can have different probabilities)
+    weight = {}
+
     def all_components(shape, trial_count, lo_flag):
         for cpi in range(shape.crossings_shape):
             if trial_count == n_inst and en._crossing_is_unweighted:
@@ -47,8 +52,14 @@ def _eval(arg):
             else:
                 perm = en.jth_permutation_indices(n_inst, cs if lo_flag == 0 else lo_flag, cpi, en._pmemo if lo_flag == 0 else en._leftover_pmemo)
                 src_ranges = [range(shape.combinations_shapes[p]) for p in perm]
+            den = shape.crossings_shape
+            for r_ in src_ranges:
+                den *= len(r_)
+            for n in shape.independent_shapes:
+                den *= n
             for src in itertools.product(*src_ranges):
                 for ind in itertools.product(*[range(n) for n in shape.independent_shapes]):
+                    weight[(lo_flag, cpi, tuple(src), tuple(ind))] = Fraction(1, den)
                     yield (cpi, tuple(src), tuple(ind))
     comps = list(all_components(en._components_shape, cs, 0)) if en.solution_count() else []
     lcomps = list(all_components(en._leftover_components_shape, leftover, leftover)) if leftover > 0 else [0]
@@ -61,6 +72,7 @@ def _eval(arg):
         return out
     names = SC.user_factors(d)
     hits = Counter()
+    mass = Counter()
     accepted = 0
     for p in range(en.preamble_solution_count()):
         for rc in itertools.product(comps, repeat=rounds):
@@ -77,6 +89,12 @@ def _eval(arg):
                 e = block.add_implied_levels(en.factors_and_levels_to_names(run))
                 e = {k: v for k, v in e.items() if not isinstance(k, HiddenName)}
                 hits[SC.key_of_exp(e, names)] += 1
+                w = Fraction(1, max(en.preamble_solution_count(), 1))
+                for c in rc:
+                    w *= weight[(0,) + c]
+                if leftover > 0:
+                    w *= weight[(leftover,) + lc]
+                mass[SC.key_of_exp(e, names)] += w
     out["accepted"] = accepted
     L, U = set(map(_t, lo)), set(map(_t, lo)) | set(map(_t, amb))
     got = {_t(k): n for k, n in hits.items()}
@@ -88,6 +106,16 @@ def _eval(arg):
     dup = multiplicity_mismatch(d, got, L)
     dup = list(dup) if dup else None
     out["dup"] = dup
+    # uniformity of ONE requested sample: the probability mass of each valid sequence (per documented copy) must be the same
+    per_copy = {}
+    for k, n in hits.items():
+        per_copy[k] = mass[k] / n
+    vals = sorted(set(per_copy.values()))
+    if len(vals) > 1:
+        lo_k = min(per_copy, key=lambda k: per_copy[k])
+        hi_k = max(per_copy, key=lambda k: per_copy[k])
+        tot = sum(mass.values())
+        out["nonuniform"] = dict(distinct_masses=len(vals), low=[str(per_copy[lo_k] / tot), dict(lo_k)], high=[str(per_copy[hi_k] / tot), dict(hi_k)])
     return out
 
 
@@ -135,11 +163,21 @@ def main(tier):
         if bad:
             ck.violation("C05.bijection", f"{_cls(d, 'bijection')}:{d['name']}", f"design {d['name']}: {bad}", SC.design_replay(d, strategy="enumerator"),
                          tags=dict(kind="bijection", features=SC.feature_class(d)))
+        nu = r.get("nonuniform")
+        if not bad:
+            ck.oblig(f"C05.uniform({d['name']})", "E", "passed" if not nu else "failed",
+                     detail=None if not nu else f"conditional probability of a returned sequence ranges from {nu['low'][0]} to {nu['high'][0]}")
+            if nu:
+                ck.violation("C05.uniform", f"{_cls(d, 'uniform')}:{d['name']}",
+                             f"design {d['name']}: one requested sample is not uniform over the valid sequences: {nu['low'][1]} has probability {nu['low'][0]}, "
+                             f"{nu['high'][1]} has {nu['high'][0]} (the source-combination draws of random_components have permutation-dependent ranges)",
+                             SC.design_replay(d, strategy="enumerator", nonuniform=nu), tags=dict(kind="uniform", features=SC.feature_class(d)))
         ck.sample(dict(design=d["name"], candidates=r["candidates"], accepted=r["accepted"], valid=r["n_valid"], shape=sh))
     ck.rule = f"one case per design of D that RandomGen accepts, the reference reading covers and that has at most {limit} candidates; every candidate index is generated"
     ck.exhaustive = False
     ck.trust("spec/model.py reference reading", "CPython")
-    ck.assume("uniformity follows from the bijection and random.randrange being uniform (not checked)", "bounded design space D")
+    ck.assume("random.randrange is uniform and successive draws are independent (not checked); the probability of a candidate is the product of 1/range over the "
+              "draws random_components makes for it", "bounded design space D")
     return ck.finish()
 
 
